@@ -594,7 +594,7 @@ impl World {
         // the crash: every handle into this document is gone
         for i in 0..self.real.slots.len() {
             let gone = match &self.real.slots[i] {
-                Some(RSlot::Node { doc: d, .. }) | Some(RSlot::Vec { doc: d, .. }) | Some(RSlot::List { doc: d, .. }) | Some(RSlot::Map { doc: d, .. }) => *d == doc,
+                Some(RSlot::Node { doc: d, .. }) | Some(RSlot::Vec { doc: d, .. }) | Some(RSlot::List { doc: d, .. }) | Some(RSlot::TagList { doc: d, .. }) | Some(RSlot::Map { doc: d, .. }) => *d == doc,
                 _ => false,
             };
             if gone {
@@ -925,7 +925,7 @@ impl World {
             let hit = match &self.model.slots[i] {
                 Some(MSlot::Node(m)) => gone.contains(m),
                 Some(MSlot::Vec(v, _)) => v.iter().any(|m| gone.contains(m)),
-                Some(MSlot::List(m)) | Some(MSlot::Map(m)) => gone.contains(m),
+                Some(MSlot::List(m)) | Some(MSlot::Map(m)) | Some(MSlot::TagList(m, _)) => gone.contains(m),
                 Some(MSlot::Run(v)) => v.iter().any(|m| gone.contains(m)),
                 _ => false,
             };
@@ -1426,6 +1426,43 @@ impl World {
                         let flags = self.vec_flags(*out);
                         self.model.set_slot(*out, MSlot::Vec(exp, flags));
                         self.model.born.insert(*out, self.model.gen);
+                    }
+                }
+            }
+            Op::TagList { node, name, out } => match self.model.node_slot(*node) {
+                Some(m) => self.model.set_slot(*out, MSlot::TagList(m, name.clone())),
+                None => {
+                    self.model.clear_slot(*out);
+                    self.real.clear(*out);
+                }
+            },
+            Op::TagListRead { list, out } => {
+                let (m, name) = match self.model.slot(*list) {
+                    Some(MSlot::TagList(m, name)) => (*m, name.clone()),
+                    _ => {
+                        self.model.clear_slot(*out);
+                        self.real.clear(*out);
+                        return;
+                    }
+                };
+                let mut exp = vec![];
+                self.collect_by_tag(m, &name, true, &mut exp);
+                if let Ret::Nodes(keys) = ret {
+                    let got: Vec<Option<Mid>> = keys.iter().map(|k| self.model.mid_of(*k)).collect();
+                    let want: Vec<Option<Mid>> = exp.iter().map(|m| Some(*m)).collect();
+                    if got != want {
+                        fails.push(Fail::new(
+                            "C12",
+                            "navigation",
+                            format!("the held list get_elements_by_tag_name({:?}) of {:?} now yields {:?}, the tree holds {:?}", name, self.model.key(m), keys, exp.iter().map(|m| self.model.key(*m)).collect::<Vec<_>>()),
+                        ));
+                        self.model.clear_slot(*out);
+                        self.real.clear(*out);
+                    } else {
+                        let flags = self.vec_flags(*out);
+                        self.model.set_slot(*out, MSlot::Vec(exp, flags));
+                        self.model.born.insert(*out, self.model.gen);
+                        rep.probes.push("held_live_element_list_read");
                     }
                 }
             }
